@@ -190,6 +190,8 @@ static void op_free(actor *a, int ui)
     hist(a, "freed", ui, 0, 0);
 }
 
+static void wait_arm(void);
+static void actor_wait_step(actor *a);
 static void unit_point_before(actor *a, uint64_t *tick, int *must);
 static void unit_point_after(actor *a, uint64_t tick, int must, const char *what);
 static void actor_yield(actor *a)
@@ -213,12 +215,9 @@ static void op_fwait(actor *a, int k)
 {
     if (a->kind == A_UNIT && a->utype == U_TASK)
         generr("tasklet cannot wait for a flag");
-    while (!G.flag[k]) {
-        if (is_ult_actor(a))
-            actor_yield(a);
-        else
-            ds_wait_change();
-    }
+    wait_arm();
+    while (!G.flag[k])
+        actor_wait_step(a);
 }
 static void op_fset(actor *a, int k)
 {
@@ -670,7 +669,7 @@ static void migr_callback(ABT_thread thread, void *cb_arg)
     actor *u = (actor *)cb_arg;
     if (u < &G.unit[0] || u >= &G.unit[MAXU])
         viol("migration callback got a foreign argument");
-    if (u->named && thread != u->h)
+    if (u->named && ALOAD(u->h_valid) && thread != u->h)
         viol("migration callback of u%d got another thread handle", u->id);
     AINC(u->cb_count);
 }
@@ -681,6 +680,21 @@ static void final_unit_checks(const char *when)
         actor *u = &G.unit[i];
         if (!u->created)
             continue;
+        {
+            struct migstate *m = mig_of(u);
+            int accepted = 0;
+            for (int k = 0; k < m->nstarted && k < MAXREQ; k++)
+                if (m->returned[k] == 1)
+                    accepted++;
+            int cbs = ALOAD(u->cb_count);
+            if (!u->has_cb && cbs)
+                viol("u%d has no migration callback but %d callback(s) ran", i, cbs);
+            if (u->has_cb && (cbs > accepted || cbs < m->observed_changes))
+                viol("u%d: migration callback ran %d time(s) for %d accepted request(s) and %d observed pool change(s)",
+                     i, cbs, accepted, m->observed_changes);
+            if (accepted)
+                stat_add("units_with_accepted_migration", 1);
+        }
         if (u->cancelled) {
             if (u->ends > u->incarnation || u->starts > u->incarnation)
                 viol("cancelled unit u%d ran too often", i);
@@ -709,6 +723,10 @@ static void run_program(void)
     rc = ABT_thread_self(&G.main_a.h);
     CHECK_RC(rc, "ABT_thread_self");
     G.main_a.migratable = 1;
+    if (G.xs[0].sched == 0) {
+        rc = ABT_xstream_get_main_sched(G.xs[0].h, &G.xs[0].sh);
+        CHECK_RC(rc, "ABT_xstream_get_main_sched");
+    }
     G.main_a.cur_pool = G.xs[0].npools ? G.xs[0].pools[0] : 0;
     G.xs[0].created = 1;
     G.xs[0].rank = 0;
@@ -790,12 +808,10 @@ static void run_program(void)
          * synchronisation objects are freed below, and the primary stream must
          * keep scheduling meanwhile */
         main_wait_all_done();
-    } else {
-        for (int i = 0; i < G.next; i++)
-            while (!ALOAD(G.ext[i].ends)) {
-                rc = ABT_thread_yield();
-                CHECK_RC(rc, "ABT_thread_yield");
-            }
+    } else if (G.next) {
+        g_wait_exts_only = 1;
+        main_wait_all_done();
+        g_wait_exts_only = 0;
     }
     for (int i = 0; i < G.next; i++)
         pthread_join(G.ext[i].pth, NULL);
